@@ -149,6 +149,56 @@ def iradon_cases(draw):
     }
 
 
+# Large problems: (kind, N, A, B, filter, circle).  Implementations that tile / cache / chunk by
+# problem size only change path beyond some B * output_size^2 * A; the grid below puts a case just
+# below and just above 2^20, 2^22 and 2^24 and uses every filter name.  Every run judges every
+# row once (quick) - Hypothesis draws the contents (seeds, angle offsets, theta dtype, types).
+LARGE_QUICK = [
+    ("iradon", 64, 60, 1, "ramp", True),  # 2^17.9
+    ("iradon", 64, 180, 2, "cosine", True),  # 2^20.5  just above 2^20
+    ("iradon", 96, 180, 2, "hamming", True),  # 2^21.7  just below 2^22
+    ("iradon", 96, 180, 3, "hann", True),  # 2^22.2  just above 2^22
+    ("iradon", 181, 360, 1, None, True),  # 2^23.5  below 2^24
+    ("iradon", 128, 360, 3, "shepp-logan", True),  # 2^24.1  just above 2^24
+    ("radon", 96, 180, 3, None, True),  # 2^22.2
+    ("radon", 181, 120, 1, None, True),  # 2^21.9, odd N
+]
+LARGE_THOROUGH = LARGE_QUICK + [
+    ("iradon", 128, 180, 2, "ramp", False),  # circle=False, output 90: 2^21.5
+    ("iradon", 181, 180, 3, "ramp", True),  # 2^24.1
+    ("iradon", 181, 360, 3, "hann", True),  # 2^25.1
+    ("iradon", 256, 360, 2, "cosine", True),  # 2^25.5
+    ("iradon", 65, 512, 2, "shepp-logan", True),  # many angles, 2^22.0
+    ("iradon", 127, 90, 3, "hamming", False),  # odd, circle=False
+    ("radon", 128, 360, 3, None, True),  # 2^24.1
+    ("radon", 256, 180, 2, None, True),  # 2^24.5
+    ("radon", 64, 512, 1, None, True),  # 2^21
+]
+
+
+@st.composite
+def large_cases(draw, row):
+    kind, N, A, B, fname, circle = row
+    dtype = draw(st.sampled_from(["float32", "float64"]))
+    if draw(st.sampled_from(["even", "even", "random"])) == "even":
+        step = 180.0 / A
+        off = draw(st.floats(0.0, step * 0.999, allow_nan=False, width=32))
+        angles = {"n": A, "mode": "even", "offset": off}
+    else:
+        angles = {"n": A, "mode": "random", "seed": draw(SEEDS)}
+    case = {"kind": kind, "large": True, "N": N, "theta_dtype": dtype, "angles": angles}
+    img = st.fixed_dictionaries({"type": st.sampled_from(["noise", "blocks", "smooth"]), "seed": SEEDS, "amp": st.just(1.0)})
+    if kind == "radon":
+        case["imgs"] = [draw(img) for _ in range(B)]
+    else:
+        sino = st.one_of(
+            st.fixed_dictionaries({"type": st.just("noise"), "seed": SEEDS, "amp": st.just(1.0)}),
+            st.fixed_dictionaries({"type": st.just("radon"), "img": img}),
+        )
+        case.update(filter=fname, circle=circle, sinos=[draw(sino) for _ in range(B)])
+    return case
+
+
 # ------------------------------------------------------------------------------------------------
 # judging helpers
 # ------------------------------------------------------------------------------------------------
@@ -189,7 +239,8 @@ def _judge(ctx, case, got, want, scale, K, what, label, skip=None):
 def _angle_classes(theta64):
     special = all(a in (0.0, 90.0, 180.0) for a in theta64.tolist())
     cl = ["angles:only_0_90_180" if special else "angles:generic"]
-    cl.append("n_angles:%s" % ("1" if len(theta64) == 1 else "2-4" if len(theta64) <= 4 else "5-12"))
+    n = len(theta64)
+    cl.append("n_angles:%s" % ("1" if n == 1 else "2-4" if n <= 4 else "5-12" if n <= 12 else "13-360" if n <= 360 else ">360"))
     if len(set(theta64.tolist())) < len(theta64):
         cl.append("angles:repeated")
     return special, cl
@@ -216,6 +267,21 @@ def _theta_tensor(case):
     return th64, torch.tensor(th64, dtype=getattr(torch, case["theta_dtype"]))
 
 
+def _radon_linearity(ctx, case, rr, th, N, A, imgs, singles):
+    import torch
+
+    a, b = float(case["lin"]["a"]), float(case["lin"]["b"])
+    y = ref.build_image(case["lin"]["img"], N)
+    z = (a * imgs[0].astype(np.float64) + b * y.astype(np.float64)).astype(np.float32)
+    with ctx.sut(case, "radon_torch(linear combination)"):
+        Ry = _np(rr.radon_torch(torch.from_numpy(y.copy()), theta=th))
+        Rz = _np(rr.radon_torch(torch.from_numpy(z.copy()), theta=th))
+    Ry = _shape(case, Ry, (A, N), "radon_torch(2-D image)", squeeze_ok=False)
+    Rz = _shape(case, Rz, (A, N), "radon_torch(2-D image)", squeeze_ok=False)
+    scale = EPS32 * N * N * (abs(a) * float(np.abs(imgs[0]).max()) + abs(b) * float(np.abs(y).max()))
+    _judge(ctx, case, Rz, a * singles[0] + b * Ry, scale, 2 * K_RADON, "radon_torch linearity R(a x + b y) vs a R(x) + b R(y), a=%r b=%r" % (a, b), "radon_linearity")
+
+
 def _check_radon(ctx, case):
     import torch
 
@@ -229,6 +295,10 @@ def _check_radon(ctx, case):
     all_smooth = all(s["type"] == "smooth" for s in case["imgs"])
     classes = ["kind:radon", "N:even" if N % 2 == 0 else "N:odd", "B:%d" % B, "theta:" + case["theta_dtype"]] + cl
     classes += sorted({"image:" + s["type"] for s in case["imgs"]})
+    large = bool(case.get("large"))
+    sfx = "_large" if large else ""
+    if large:
+        classes += ["large_problem", "large_problem:radon B*N^2*A=2^%d.." % int(np.log2(B * N * N * A))]
     ctx.record(case, (N % 2 == 0) or (not special) or (not all_smooth), classes)
 
     stack = np.stack(imgs)
@@ -241,24 +311,16 @@ def _check_radon(ctx, case):
     for i, img in enumerate(imgs):
         want = ref.ref_radon(img, th64)
         scale = EPS32 * N * N * float(np.abs(img).max())
-        worst = max(worst, _judge(ctx, case, out[i], want, scale, K_RADON, "radon_torch vs skimage.radon (image %d of the batch)" % i, "radon"))
+        worst = max(worst, _judge(ctx, case, out[i], want, scale, K_RADON, "radon_torch vs skimage.radon (image %d of the batch)" % i, "radon" + sfx))
         with ctx.sut(case, "radon_torch(single image)"):
             one = rr.radon_torch(torch.from_numpy(img.copy()), theta=th)
         one = _shape(case, _np(one), (A, N), "radon_torch(2-D image)", squeeze_ok=False)
         singles.append(one)
-        _judge(ctx, case, out[i], one, scale, K_BATCH, "radon_torch batched call vs per-image call (image %d)" % i, "radon_batch")
+        _judge(ctx, case, out[i], one, scale, K_BATCH, "radon_torch batched call vs per-image call (image %d)" % i, "radon_batch" + sfx)
 
-    # linearity: R(a x + b y) = a R(x) + b R(y)
-    a, b = float(case["lin"]["a"]), float(case["lin"]["b"])
-    y = ref.build_image(case["lin"]["img"], N)
-    z = (a * imgs[0].astype(np.float64) + b * y.astype(np.float64)).astype(np.float32)
-    with ctx.sut(case, "radon_torch(linear combination)"):
-        Ry = _np(rr.radon_torch(torch.from_numpy(y.copy()), theta=th))
-        Rz = _np(rr.radon_torch(torch.from_numpy(z.copy()), theta=th))
-    Ry = _shape(case, Ry, (A, N), "radon_torch(2-D image)", squeeze_ok=False)
-    Rz = _shape(case, Rz, (A, N), "radon_torch(2-D image)", squeeze_ok=False)
-    scale = EPS32 * N * N * (abs(a) * float(np.abs(imgs[0]).max()) + abs(b) * float(np.abs(y).max()))
-    _judge(ctx, case, Rz, a * singles[0] + b * Ry, scale, 2 * K_RADON, "radon_torch linearity R(a x + b y) vs a R(x) + b R(y), a=%r b=%r" % (a, b), "radon_linearity")
+    # linearity: R(a x + b y) = a R(x) + b R(y)   (not repeated on the large problems)
+    if case.get("lin") is not None:
+        _radon_linearity(ctx, case, rr, th, N, A, imgs, singles)
 
     # projection at 0 degrees == column sums of the disc-masked image.  This clause is judged on
     # the image BEFORE masking: applying the disc mask is radon_torch's own job
@@ -268,7 +330,7 @@ def _check_radon(ctx, case):
     p0 = _shape(case, p0, (B, 1, N), "radon_torch(theta=[0])", squeeze_ok=(B == 1))
     for i, raw in enumerate(raws):
         scale = EPS32 * N * N * float(np.abs(raw).max())
-        _judge(ctx, case, p0[i, 0], ref.column_sums(raw), scale, K_RADON, "radon_torch at 0 degrees vs column sums of the disc-masked image (image %d, given unmasked)" % i, "radon_theta0")
+        _judge(ctx, case, p0[i, 0], ref.column_sums(raw), scale, K_RADON, "radon_torch at 0 degrees vs column sums of the disc-masked image (image %d, given unmasked)" % i, "radon_theta0" + sfx)
     target(min(worst / K_RADON, 2.0), label="radon err/tol")
 
 
@@ -288,9 +350,13 @@ def _check_iradon(ctx, case):
     classes = ["kind:iradon", "N:even" if N % 2 == 0 else "N:odd", "B:%d" % B, "theta:" + case["theta_dtype"]] + cl
     classes += ["filter:%s" % fname, "circle:%s" % circle]
     classes += sorted({"sinogram:" + s["type"] for s in case["sinos"]})
+    out_size = N if circle else int(np.floor(np.sqrt(N**2 / 2.0)))
+    large = bool(case.get("large"))
+    sfx = "_large" if large else ""
+    if large:
+        classes += ["large_problem", "large_problem:iradon B*out^2*A=2^%d.." % int(np.log2(B * out_size * out_size * A))]
     ctx.record(case, (N % 2 == 0) or (not special) or (not plain), classes)
 
-    out_size = N if circle else int(np.floor(np.sqrt(N**2 / 2.0)))
     skip = ref.unstable_pixels(N, th64, circle)
     if skip.any():
         ctx.count("iradon:pixels_at_detector_end_not_compared", int(skip.sum()))
@@ -306,14 +372,17 @@ def _check_iradon(ctx, case):
         scale = EPS32 * (N + 8) * float(np.abs(s).max())
         worst = max(
             worst,
-            _judge(ctx, case, out[i], want, scale, K_IRADON, "iradon_torch vs skimage.iradon (filter %r, circle=%s, sinogram %d of the batch)" % (fname, circle, i), "iradon", skip),
+            _judge(ctx, case, out[i], want, scale, K_IRADON, "iradon_torch vs skimage.iradon (filter %r, circle=%s, sinogram %d of the batch)" % (fname, circle, i), "iradon" + sfx, skip),
         )
         with ctx.sut(case, "iradon_torch(single sinogram)"):
             one = rr.iradon_torch(torch.from_numpy(s.copy()), theta=th, filter_name=fname, circle=circle)
         one = _shape(case, _np(one), (out_size, out_size), "iradon_torch(2-D sinogram)", squeeze_ok=False)
         singles.append(one)
-        _judge(ctx, case, out[i], one, scale, K_BATCH, "iradon_torch batched call vs per-sinogram call (sinogram %d)" % i, "iradon_batch", skip)
+        _judge(ctx, case, out[i], one, scale, K_BATCH, "iradon_torch batched call vs per-sinogram call (sinogram %d)" % i, "iradon_batch" + sfx, skip)
 
+    if case.get("lin") is None:  # linearity is not repeated on the large problems
+        target(min(worst / K_IRADON, 2.0), label="iradon err/tol")
+        return
     a, b = float(case["lin"]["a"]), float(case["lin"]["b"])
     y = ref.build_sinogram(case["lin"]["sino"], A, N, th64)
     z = (a * sinos[0].astype(np.float64) + b * y.astype(np.float64)).astype(np.float32)
@@ -346,6 +415,9 @@ def search(ctx):
         for fname in ref.FILTERS:
             check(ctx, {"kind": "filter", "size": size, "filter": fname})
     ctx.extra["filter_cases_enumerated_exhaustively"] = True
+    # large problems: every row of the grid, once (quick) or three times (thorough, per worker)
+    for k, row in enumerate(LARGE_THOROUGH if ctx.thorough else LARGE_QUICK):
+        core.run_given(ctx, "large-%d" % k, large_cases(row), lambda c: check(ctx, c), ctx.n(1, 3), shrink=False)
     # thorough: several independently seeded Hypothesis runs per worker instead of one long one
     chunks = 1 if not ctx.thorough else 6
     for k in range(chunks):
